@@ -159,6 +159,8 @@ def run_obligation(ctx, obl, want_trace=False, trace_props=()):
     cb += obl.cbmc
     if obl.solver:
         cb += [obl.solver] if obl.solver.startswith("--") else ["--external-sat-solver", obl.solver]
+    if obl.canary and "--drop-unused-functions" not in cb:
+        cb += ["--drop-unused-functions"]      # cover goals of other entry points in the same TU are not ours
     if want_trace:
         cb += ["--trace"]
         for tp in trace_props:
